@@ -208,6 +208,11 @@ fn flag_op_audit(r: &mut Rep) {
     fn dis() { interrupts::disable() }
     #[inline(never)]
     fn eh() { interrupts::enable_and_hlt() }
+    #[inline(never)]
+    fn rf() -> u64 { x86_64::registers::rflags::read_raw() }
+    // reading the flags is `pushfq; pop r` and nothing else: in particular no load from below the stack pointer, where an
+    // interrupt arriving in between would have put its frame
+    crate::audit::audit_tiny(r, "C17", "rflags::read_raw", rf as usize as u64, 1, || { std::hint::black_box(rf()); });
     crate::audit::audit_tiny(r, "C17", "enable", en as usize as u64, 1, || en());
     crate::audit::audit_tiny(r, "C17", "disable", dis as usize as u64, 1, || dis());
     crate::audit::audit_tiny(r, "C17", "enable_and_hlt", eh as usize as u64, 2, || eh());
